@@ -97,14 +97,20 @@ var (
 )
 
 type universe struct {
-	addrs []common.Address
-	keys  [][]byte
-	vals  [][]byte
-	codes [][]byte
+	// every 10th account is a contract that never gets a storage slot of its own (its
+	// balance lives in the token contract's storage): code, nonce and balance only
+	codeOnly map[int]bool
+	addrs    []common.Address
+	keys     [][]byte
+	vals     [][]byte
+	codes    [][]byte
 }
 
 func mkUniverse(rng *rand.Rand, nAcc, nKeys int) *universe {
-	u := &universe{}
+	u := &universe{codeOnly: map[int]bool{}}
+	for i := 3; i < nAcc; i += 10 {
+		u.codeOnly[i] = true
+	}
 	seenAddr := map[common.Address]bool{token: true}
 	for len(u.addrs) < nAcc {
 		var a common.Address
@@ -177,7 +183,28 @@ func snapshot(s *account.AccountDB, u *universe) []acctSnap {
 func mutate(s *account.AccountDB, u *universe, rng *rand.Rand, n int, sharing bool) map[string]int {
 	kinds := map[string]int{}
 	for i := 0; i < n; i++ {
-		a := u.addrs[rng.Intn(len(u.addrs))]
+		ai := rng.Intn(len(u.addrs))
+		a := u.addrs[ai]
+		if u.codeOnly[ai] {
+			switch r := rng.Intn(100); {
+			case r < 45: // code that no other account has
+				c := make([]byte, 20+rng.Intn(300))
+				rng.Read(c)
+				c[0] = 0x60
+				s.SetCode(a, c)
+				kinds["CodeOnlyUniqueCode"]++
+			case r < 65: // code shared with accounts that do have storage
+				s.SetCode(a, u.codes[rng.Intn(len(u.codes))])
+				kinds["CodeOnlySharedCode"]++
+			case r < 80:
+				s.SetNonce(a, uint64(rng.Intn(50)))
+				kinds["SetNonce"]++
+			default:
+				s.AddBalance(a, big.NewInt(int64(1+rng.Intn(1000))))
+				kinds["AddBalance"]++
+			}
+			continue
+		}
 		switch r := rng.Intn(100); {
 		case r < 55:
 			var v []byte
